@@ -6,6 +6,7 @@ import (
 	"fmt"
 	"io"
 	"reflect"
+	"strings"
 
 	"github.com/Eyevinn/mp4ff/bits"
 	"github.com/Eyevinn/mp4ff/internal/vsim/sim"
@@ -279,7 +280,27 @@ func drawConstructedSource(r *sim.Run) *objSource {
 	var b mp4.Box
 	var err error
 	name := ""
-	switch t.Draw(14) {
+	switch t.Draw(15) {
+	case 14:
+		// a media data box filled through its own methods in a seeded order (data parts are only added while there is
+		// no monolithic data: the opposite order is refused by the library)
+		m := &mp4.MdatBox{}
+		var hist []string
+		for i := 1 + t.Draw(4); i > 0; i-- {
+			n := lens[t.Draw(8)]
+			switch k := t.Draw(3); {
+			case k == 0 && len(m.Data) == 0:
+				m.AddSampleDataPart(fill(n))
+				hist = append(hist, fmt.Sprintf("AddSampleDataPart(%d)", n))
+			case k == 1:
+				m.SetData(fill(n))
+				hist = append(hist, fmt.Sprintf("SetData(%d)", n))
+			default:
+				m.AddSampleData(fill(n))
+				hist = append(hist, fmt.Sprintf("AddSampleData(%d)", n))
+			}
+		}
+		b, name = m, "MdatBox{"+strings.Join(hist, " ")+"}"
 	case 0:
 		n := lens[t.Draw(len(lens))]
 		b, name = mp4.CreateEsdsBox(fill(n)), fmt.Sprintf("CreateEsdsBox(%d-byte config)", n)
